@@ -301,6 +301,50 @@ pub fn run(t: &mut Trace, rng: &mut Rng, thorough: bool) {
         w.truncate(11);
         op_parse(t, &w);
     }
+    // non-ASCII characters that alias an ASCII escape character modulo 2^8 / 2^16, or are Unicode
+    // hex digits / look-alikes, substituted at every position of well-formed and nearly well-formed
+    // escapes; and a non-ASCII character ahead of the first backslash (byte offset vs character
+    // count)
+    let templates: [&[u32]; 9] = [
+        &[92, 117, 48, 48, 52, 49],                  // \u0041
+        &[92, 117, 123, 52, 49, 125],                // \u{41}
+        &[92, 117, 123, 50, 70, 102, 102, 102, 125], // \u{2Ffff}
+        &[92, 117, 123, 97, 125],                    // \u{a}
+        &[92, 117, 48, 48, 52],                      // \u004 (incomplete)
+        &[92, 117, 123, 52, 49],                     // \u{41 (unclosed)
+        &[97, 92, 117, 48, 48, 52, 49, 98],
+        &[92, 117, 123, 48, 48, 48, 48, 52, 49, 125], // six digits
+        &[92, 117, 51, 103, 92, 117, 48, 48, 52, 49], // aborted prefix with a digit, then an escape
+    ];
+    let twins: [u32; 6] = [0x100, 0x200, 0x300, 0x10000, 0x20000, 0xFF00];
+    for tpl in &templates {
+        op_parse(t, tpl);
+        for pos in 0..tpl.len() {
+            for &d in &twins {
+                let c = tpl[pos] + d;
+                if c <= 0x10FFFF && !(0xD800..=0xDFFF).contains(&c) {
+                    let mut w = tpl.to_vec();
+                    w[pos] = c;
+                    op_parse(t, &w);
+                }
+            }
+            // full-width and other Unicode digits/letters in hex positions
+            for &c in &[0xFF10u32, 0xFF21, 0xFF41, 0x0660, 0x0131, 0x212A, 0x017F] {
+                let mut w = tpl.to_vec();
+                w[pos] = c;
+                op_parse(t, &w);
+            }
+        }
+        for &pre in &[0xE9u32, 0x20AC, 0x1F600, 0x2FFFF, 0x30000] {
+            let mut w = vec![pre];
+            w.extend_from_slice(tpl);
+            op_parse(t, &w);
+            let mut w = vec![97, pre, pre];
+            w.extend_from_slice(tpl);
+            w.push(pre);
+            op_parse(t, &w);
+        }
+    }
     // texts with characters outside the SMT-LIB alphabet
     for n in 0..=4 {
         for_words(&[], &[92, 117, 0x30000, 48], n, &mut |w| op_parse(t, w));
